@@ -912,6 +912,16 @@ def run_o16(chk, repo):
               and c.func.attr == 'set_input' and len(c.args) == 2 for a in ast.walk(c.args[1]) if isinstance(a, ast.Name)}
     if not inputs:
         raise AnalysisError('O16: no set_input(<compartment>, <accumulator>) call in to_compartmental_system')
+    # plain copies (`i, o = (positive, other)` left by an extracted and inlined helper) carry the role of the accumulator
+    for _ in range(4):
+        for a in ast.walk(f.node):
+            if isinstance(a, ast.Assign) and len(a.targets) == 1:
+                tg, vl = a.targets[0], a.value
+                pairs = list(zip(tg.elts, vl.elts)) if isinstance(tg, ast.Tuple) and isinstance(vl, ast.Tuple) \
+                    and len(tg.elts) == len(vl.elts) else [(tg, vl)]
+                for t_, v_ in pairs:
+                    if isinstance(t_, ast.Name) and isinstance(v_, ast.Name) and t_.id in inputs:
+                        inputs.add(v_.id)
 
     def incremented(stmts):
         out = set()
@@ -934,7 +944,7 @@ def run_o16(chk, repo):
         if isinstance(t, ast.Compare) and len(t.ops) == 1 and isinstance(t.ops[0], (ast.Is, ast.Eq)) \
                 and isinstance(t.comparators[0], ast.Constant) and t.comparators[0].value is True:
             t = t.left
-        if not (isinstance(t, ast.Call) and (dotted(t.func) or '').split('.')[-1] == '_is_positive' and len(t.args) == 1):
+        if not (isinstance(t, ast.Call) and (dotted(t.func) or '').split('.')[-1].lstrip('_') == 'is_positive' and len(t.args) == 1):
             continue
         pos_branch, other = (I.orelse, I.body) if neg else (I.body, I.orelse)
         inc_pos, inc_other = incremented(pos_branch), incremented(other)
